@@ -40,7 +40,7 @@ func init() {
 			c.floor("FM.ZERO", 2)
 			c.runMeshRules("MI", "model3d")
 			c.runMeshRules("MI", "model2d")
-			c.floor("MI.WRITERS", 6)
+			c.floor("MI.WRITERS", 5)
 			c.floor("MI.OWNER", 2)
 			c.floor("MI.DEDUP", 2)
 			c.floor("MI.RECV", 20)
